@@ -31,7 +31,17 @@ use crate::{
 pub fn validate_jump_destination(counter: &RuntimeBoxedVal, vm: &mut VM) -> execution::Result<u32> {
     let instruction_pointer = vm.instruction_pointer()?;
     let jump_target = match counter.constant_fold().data() {
-        RSVD::KnownData { value, .. } => value.value_le().as_u32(),
+        RSVD::KnownData { value, .. } => {
+            // The whole 256-bit value is the target: one that does not fit in an instruction
+            // pointer cannot name an instruction, whatever its low bits are.
+            let target = value.value_le();
+            if target > ethnum::U256::from(u32::MAX) {
+                return Err(
+                    execution::Error::InvalidOffsetForJump { data: *value }.locate(instruction_pointer)
+                );
+            }
+            target.as_u32()
+        }
         _ => {
             return Err(execution::Error::NoConcreteJumpDestination.locate(instruction_pointer));
         }
